@@ -13,6 +13,9 @@ import sys
 
 SRC = sys.argv[1]
 OFFSET = int(sys.argv[2]) if len(sys.argv) > 2 else 0  # round 2 changes are numbered 4..6
+ONLY = sys.argv[3:]  # optional: restrict to these properties (parallel lanes)
+# KEEP_SCRATCH=1: run the checks against the scratch worktree (tools/seedscratch.sh) instead of applying to /repo
+TOOL = "seedscratch.sh" if os.environ.get("KEEP_SCRATCH") else "seedcheck.sh"
 VERIF = os.path.dirname(os.path.dirname(os.path.abspath(__file__)))
 # changes the checks missed when first run against them, and what was strengthened (DESIGN.md section 10)
 MISSED = {
@@ -195,6 +198,8 @@ for d in sorted(os.listdir(SRC)):
     if not m:
         continue
     prop = m.group(1)
+    if ONLY and prop not in ONLY:
+        continue
     for n in (1, 2, 3):
         patch = os.path.join(SRC, d, f"mut{n}.patch")
         demo = os.path.join(SRC, d, f"demo{n}.py")
@@ -203,7 +208,7 @@ for d in sorted(os.listdir(SRC)):
             continue
         sid = f"{prop}-{n + OFFSET}"
         checks = [prop] + EXTRA.get(sid, [])
-        r = subprocess.run([os.path.join(VERIF, "tools", "seedcheck.sh"), patch, demo, *checks], capture_output=True, text=True)
+        r = subprocess.run([os.path.join(VERIF, "tools", TOOL), patch, demo, *checks], capture_output=True, text=True)
         out = r.stdout + r.stderr
         confirmed = "MUTANT REJECTED" not in out and "suite: passes" in out
         by = [c for c in checks if re.search(rf"{c} exit=1 (\d+) violation", out)]
@@ -222,10 +227,11 @@ for d in sorted(os.listdir(SRC)):
             "source": "independent sub-agent given only the property text and a scratch worktree",
             "needs_to_manifest": open(note).read().strip() if os.path.exists(note) else "",
             "ran": [
-                "tools/seedcheck.sh patch.diff demo.py " + prop,
+                f"tools/{TOOL} patch.diff demo.py " + prop,
                 "scratch worktree of /repo: git apply; /venv/bin/python -m pytest -q -p no:cacheprovider --timeout=900 "
                 "(only the baseline failures test_object / test_measure); demo.py exits non-zero with the patch, 0 without",
-                f"git -C /repo apply patch.diff; ./check {' / '.join(checks)} quick; git -C /repo checkout -- .",
+                (f"VERIF_REPO=<scratch worktree with patch.diff applied> ./check {' / '.join(checks)} quick" if os.environ.get("KEEP_SCRATCH")
+                 else f"git -C /repo apply patch.diff; ./check {' / '.join(checks)} quick; git -C /repo checkout -- ."),
             ],
             "suite_passes_with_change": True,
             "demo_fails_with_change_passes_without": True,
